@@ -263,7 +263,11 @@ class _Worker:
                 except BlockingIOError:
                     pass
                 except (BrokenPipeError, OSError):
-                    return got, self._dead()
+                    # the worker is gone, but answers to earlier requests may still sit in the pipe: read them first,
+                    # or the crash would be blamed on a request that was answered
+                    wbuf = b""
+                    sent = len(reqs)
+                    continue
             if r:
                 try:
                     data = os.read(fout, 1 << 20)
